@@ -76,6 +76,7 @@ Derive(s) ==
       skew |-> \A f \in 1..Len(s.frames) : fd[f].skew,
       dih |-> \A f \in 1..Len(s.frames) : fd[f].dih,
       desc |-> \A f \in 1..Len(s.frames) : fd[f].desc,
+      outer |-> [f \in 1..Len(s.frames) |-> fd[f].outer],
       \* a distance exactly on a bin edge of a decimal layout (must not happen: rounding could go either way)
       dectie |-> \E f \in 1..Len(s.frames) : fd[f].dectie]
 
@@ -273,7 +274,7 @@ ScenarioOK ==
   \* angle-valued layouts are in 1/32 rad; decimal layouts have no distance on an edge and no edge at 0
   /\ \A x \in 1..NI : sc.inter[x].kind \in {"3b", "angle", "dihedral"} => sc.inter[x].den = 4
   /\ ~dv.dectie
-  /\ \A x \in 1..NI : sc.inter[x].den # 4 => E2(sc.inter[x], 0) # 0
+  /\ \A x \in 1..NI : sc.inter[x].den = 100 => E2(sc.inter[x], 0) # 0
   \* family 7: a negative and a positive dihedral are counted in every frame; the wildcard pattern really
   \* selects beads of two different types; a decimal layout and a bonded member of an IMC group are present
   \* descending bead lists: in every frame a pair that is excluded only through lines listing the higher
@@ -292,7 +293,14 @@ ScenarioOK ==
         \A f \in 1..Len(sc.frames) : HalfBoxOK(sc.inter[x], sc.frames[f].box)
   \* vacuity guards: every frame has distances just below a range with min > 0 (one that belongs to bin 0
   \* and one that is discarded); every frame of the triclinic family defeats a length-sized search grid
-  /\ dv.win
+  /\ sc.kind \notin {8, 9} => dv.win
+  \* families 8/9: the range as written in the options file lies within half the box as well, is not a
+  \* multiple of the step, and the effective layout has the k + 1 bins of AddInteraction
+  /\ sc.kind \in {8, 9} =>
+        \A x \in 1..NI : LET it == sc.inter[x] IN
+          /\ (it.umaxq - it.mq) % it.usq # 0 /\ it.n = (it.umaxq - it.mq) \div it.usq + 1
+          /\ (sc.kind = 8 => it.sq = it.usq) /\ (sc.kind = 9 => it.mq + (it.n - 1) * it.sq = it.umaxq)
+          /\ it.kind = "nb" => \A f \in 1..Len(sc.frames) : \A c \in 1..3 : 2 * it.umaxq <= it.den * sc.frames[f].box[c]
   /\ sc.kind = 6 => dv.skew
   /\ Len(dv.top) = Len(sc.frames[1].pos)
 
@@ -333,6 +341,7 @@ RunRecord ==
   [kind |-> sc.kind, seed |-> sc.seed, block |-> opt.block, first |-> opt.first, ext |-> opt.ext, nframes |-> nproc,
    err |-> pc = "failed",
    doimc |-> sc.doimc, intra |-> sc.intra, tie |-> dv.tie,
+   outer |-> \E j \in 1..nproc : dv.outer[FirstFrame + j - 1],
    mols |-> sc.mols, bonded |-> sc.bonded, inter |-> sc.inter, frames |-> sc.frames,
    fh |-> [j \in 1..nproc |-> dv.fh[FirstFrame + j - 1]],
    files |-> files]
